@@ -22,10 +22,11 @@ def gen(tier, rng):
     names = mboxgen.mbox_cases(rng, {"quick": 300, "search": 1000, "thorough": 6000}[tier])
     # the typed text headers through their own display(): what the reader recovers is the text, also for short printable
     # texts and for texts that look like encoded-words
-    sels = ["subject", "comments", "keywords", "in-reply-to", "references", "message-id", "user-agent", "content-id", "content-location"]
+    sels = ["subject", "subject-builder", "comments", "keywords", "in-reply-to", "references", "message-id", "user-agent", "content-id", "content-location"]
     typed = []
     looks = ["=?utf-8?b?aGk=?=", "=?utf-8?q?x?=", "=?UTF-8?B?w6k=?=", "a =?utf-8?b?aGk=?= b", "=?utf-8?b?aGk=?= =?utf-8?b?aGk=?=", "=?x?q?=41?=", "plain", "two words",
-             "é", "é \t é", "é  é", "a\tb", "=?", "?=", "=?utf-8?b??=", "x=?utf-8?b?aGk=?=", "=?utf-8?b?aGk=?=x"]
+             "é", "é \t é", "é  é", "a\tb", "=?", "?=", "=?utf-8?b??=", "x=?utf-8?b?aGk=?=", "=?utf-8?b?aGk=?=x",
+             "Re: ", "trailing blanks  ", "Grüße  ", "tab at the end\t", " leading blank", "  é"]
     for sel in sels:
         for t in looks:
             typed.append(f"typed\ttext\t{hexs(t)}\t{sel}")
